@@ -13,7 +13,11 @@ characters of n/a, N, A, blank, #, 0, x (oracle: only exactly `n/a` and the empt
 those of a fresh object with the current sidecar (and the model's);
 (b) `TabularInput(table, sidecar)`: column kinds, reference set, transformer columns and their order,
 `assemble(skip_curly_braces=True)` cells and `list(series_a)` against `Assemble.kind / refsOf / activeCols /
-transformed / seriesWith`, three consecutive calls on one object.
+transformed / seriesWith`, three consecutive calls on one object.  The table is a .tsv file or a DataFrame; a good third
+of the DataFrames carry row labels other than 0..n-1 (rows cut out of a longer frame by a mask or a slice, permuted,
+gapped, negative, float, string, duplicated labels), with and without a missing cell in the referenced columns.  Rows are
+judged by position; `series_a`, `dataframe_a`, `assemble(skip_curly_braces=True)` must carry the labels of the table handed
+in, in its order, and `dataframe_a` joined row by row (here) must be `series_a`.
 
 Direct oracle (the property statement, computed here without the code under test): the annotation of a
 row is built from the *trees* the sidecar strings were generated from — referenced columns are
@@ -395,8 +399,10 @@ def place(rng, how, refs, tagpool):
     return gen_tree(rng, leaves)
 
 
-def gen_pair(rng, names=None, has_hed=None):
-    """(spec, header, rows).  spec: name -> {"kind", "entry" (JSON), "trees": {key|None: tree}}"""
+def gen_pair(rng, names=None, has_hed=None, dense=False, min_rows=1, max_rows=4):
+    """(spec, header, rows).  spec: name -> {"kind", "entry" (JSON), "trees": {key|None: tree}}.
+    `dense`: every cell of a *referenced* column is filled in (a categorical cell is one of its keys, the other
+    kinds get a text that is neither `n/a` nor empty), so no row of that column is missing anywhere in the table."""
     if names is None:
         names = rng.sample(NAMES, rng.randint(1, 4))
         has_hed = rng.random() < 0.6
@@ -471,11 +477,23 @@ def gen_pair(rng, names=None, has_hed=None):
         header = ["onset"]
     rng.shuffle(header)
     rows = []
-    for _ in range(rng.randint(1, 4)):
+    filled = set(refs) if dense else set()
+    for _ in range(rng.randint(min_rows, max_rows)):
         row = []
         for c in header:
             u = rng.random()
-            if c == "HED":
+            if c in filled:             # dense mode: a referenced column without a single missing cell
+                k = "hed" if c == "HED" else spec[c]["kind"]
+                keys = [x for x in spec[c]["trees"] if x not in MISSING] if k == "categorical" else []
+                if k == "categorical" and keys:
+                    row.append(rng.choice(keys))
+                elif k == "value":
+                    row.append(rng.choice(["3", "abc", "7.5"]) if u < 0.7 else near_cell(rng, names))
+                elif k == "hed":
+                    row.append(rng.choice(["Purple", "(Pink, Dot)", "Orange, Cross"]) if u < 0.75 else near_cell(rng, names))
+                else:
+                    row.append(rng.choice(["k1", "x", "4", "Red"]) if u < 0.7 else near_cell(rng, names))
+            elif c == "HED":
                 row.append(rng.choice(["Purple", "(Pink, Dot)", "Orange, Cross"]) if u < 0.4 else
                            rng.choice(MISSING + ["n/a"]) if u < 0.65 else near_cell(rng, names))
             elif c in spec and spec[c]["kind"] == "categorical":
@@ -489,6 +507,76 @@ def gen_pair(rng, names=None, has_hed=None):
                 row.append(rng.choice(["k1", "x", "n/a", "", "4"]) if u < 0.6 else near_cell(rng, names))
         rows.append(row)
     return spec, header, rows
+
+
+# row labels of a DataFrame input.  None = the default 0..n-1; otherwise {"how", "labels"[, "filler"]}.  The first three are
+# made the way a user gets them (rows cut out of a longer frame), the others by labelling the rows directly.
+INDEX_HOWS = ["filtered", "filtered", "sliced", "sliced", "stepped", "permuted", "permuted", "gapped", "strings",
+              "duplicated", "negative", "float"]
+
+
+def gen_index(rng, n):
+    """labels for n >= 2 rows that are never 0..n-1"""
+    how = rng.choice(INDEX_HOWS)
+    if how == "filtered":                   # frame[mask]: increasing labels with gaps, some >= n
+        labels = sorted(rng.sample(range(n + rng.randint(1, 3)), n))
+        if labels == list(range(n)):
+            labels[-1] += 1
+    elif how == "sliced":                   # frame.iloc[k:]: RangeIndex(k, k + n)
+        k = rng.randint(1, 4)
+        labels = list(range(k, k + n))
+    elif how == "stepped":                  # frame.iloc[k::2]: RangeIndex with step 2
+        k = rng.randint(0, 1)
+        labels = list(range(k, k + 2 * n, 2))
+    elif how == "permuted":                 # the labels 0..n-1 in another order (a sorted / shuffled frame)
+        labels = list(range(n))
+        while labels == list(range(n)):
+            rng.shuffle(labels)
+    elif how == "gapped":
+        labels = [10 * (i + 1) for i in range(n)]
+    elif how == "strings":
+        labels = rng.choice([[f"r{i}" for i in range(n)], list("edcbaz")[:n], [str(i) for i in range(n)],
+                             [str(n - i) for i in range(n)]])
+    elif how == "duplicated":
+        labels = [rng.randint(0, n // 2) for _ in range(n)]
+        labels[rng.randint(1, n - 1)] = labels[0]
+        if rng.random() < 0.3:
+            labels = ["ab"[x % 2] for x in labels]
+    elif how == "negative":
+        labels = [-1 - i for i in range(n)]
+    else:
+        labels = [i + 0.5 for i in range(n)]
+    return {"how": how, "labels": labels}
+
+
+def build_frame(header, rows, index):
+    """the DataFrame handed to TabularInput: cells `rows` (all str), row labels as `index` says"""
+    import pandas as pd
+    from harness import common
+    if not index:
+        return pd.DataFrame(rows, columns=header, dtype=str)
+    how, labels = index["how"], list(index["labels"])
+    if how in ("filtered", "sliced", "stepped"):
+        at = dict(zip(labels, rows))
+        filler = index.get("filler") or ["n/a"] * len(header)
+        total = max(labels) + 1
+        full = pd.DataFrame([at.get(i, filler) for i in range(total)], columns=header, dtype=str)
+        if how == "filtered":
+            df = full[pd.Series([i in at for i in range(total)])]
+        elif how == "sliced":
+            df = full.iloc[labels[0]:]
+        else:
+            df = full.iloc[labels[0]::2]
+    else:
+        df = pd.DataFrame(rows, columns=header, dtype=str, index=pd.Index(labels))
+    if labels_of(df.index) != labels or df.values.tolist() != [list(r) for r in rows]:
+        raise common.HarnessError(f"C06 frame builder: wanted labels {labels}, built {labels_of(df.index)}")
+    return df
+
+
+def labels_of(index):
+    """row labels as JSON values"""
+    return [x if isinstance(x, (int, float, str)) and not isinstance(x, bool) else str(x) for x in index.tolist()]
 
 
 def expected_series(spec, header, rows):
@@ -531,21 +619,27 @@ def expected_series(spec, header, rows):
 
 def frame_state(df):
     return {"columns": list(df.columns), "dtypes": [str(t) for t in df.dtypes],
-            "values": [[str(x) for x in r] for r in df.values.tolist()]}
+            "values": [[str(x) for x in r] for r in df.values.tolist()],
+            "index": labels_of(df.index), "index_type": type(df.index).__name__ + ":" + str(df.index.dtype)}
 
 
-def impl_pair(spec, header, rows, via_file, tmpdir):
-    import pandas as pd
+def own_join(cells):
+    """the row filter of the statement on the cells of one assembled row (computed here, not by the code under test)"""
+    return ", ".join(x for x in cells if x != "" and x != "n/a")
+
+
+def impl_pair(spec, header, rows, via_file, tmpdir, index=None):
     from hed import TabularInput, Sidecar
     sc_json = {c: s["entry"] for c, s in spec.items()}
     sidecar = Sidecar(io.StringIO(json.dumps(sc_json)))
-    df = pd.DataFrame(rows, columns=header, dtype=str)
+    df = build_frame(header, rows, None if via_file else index)
     if via_file:
         path = f"{tmpdir}/events_{os.getpid()}.tsv"
         df.replace("", "n/a").to_csv(path, sep="\t", index=False)
         ti = TabularInput(path, sidecar=sidecar, name="gen")
     else:
         ti = TabularInput(df, sidecar=sidecar, name="gen")
+    caller_before = frame_state(df)
     res = {"table": [[str(x) for x in r] for r in ti.dataframe.values.tolist()],
            "header": [str(c) for c in ti.dataframe.columns]}
     # what the .tsv loader (outside this property) did to the cells that were written
@@ -557,14 +651,26 @@ def impl_pair(spec, header, rows, via_file, tmpdir):
     res["kinds"] = {c: (m.column_type.value if m.column_type is not None else "none")
                     for c, m in sidecar.column_data.items()}
     res["refs"] = list(ti.get_column_refs())
-    res["series"] = [list(map(str, ti.series_a))]
+    res["labels"] = []           # row labels of everything that was returned, in the order returned
+    s1 = ti.series_a
+    res["series"] = [list(map(str, s1))]
+    res["labels"].append(("series_a", labels_of(s1.index)))
     skip = ti.assemble(skip_curly_braces=True)
+    res["labels"].append(("assemble(skip_curly_braces=True)", labels_of(skip.index)))
     tr, _ = ti._mapper.get_transformers()
     res["columns"] = [str(c) for c in tr]
     res["transformed"] = [[str(x) for x in r] for r in skip[list(tr)].values.tolist()] if tr else None
-    res["series"].append(list(map(str, ti.series_a)))
-    res["series"].append(list(map(str, ti.combine_dataframe(ti.dataframe_a))))
+    s2 = ti.series_a
+    res["series"].append(list(map(str, s2)))
+    res["labels"].append(("series_a (second call)", labels_of(s2.index)))
+    fa = ti.dataframe_a
+    res["frame_a"] = {"columns": [str(c) for c in fa.columns], "values": [[str(x) for x in r] for r in fa.values.tolist()]}
+    res["labels"].append(("dataframe_a", labels_of(fa.index)))
+    s3 = ti.combine_dataframe(fa)
+    res["series"].append(list(map(str, s3)))
+    res["labels"].append(("combine_dataframe(dataframe_a)", labels_of(s3.index)))
     res["frame"] = (before_frame, frame_state(ti.dataframe))
+    res["caller_frame"] = (caller_before, frame_state(df))
     res["dict_same"] = before_dict == sidecar.loaded_dict and json.dumps(before_dict) == json.dumps(sidecar.loaded_dict)
     return res
 
@@ -572,10 +678,28 @@ def impl_pair(spec, header, rows, via_file, tmpdir):
 def judge_pair(ctx, ok, case, spec, impl, model):
     header, rows = impl["header"], impl["table"]
     nrefs = len(impl["refs"])
-    ctx.case(("p", json.dumps(case["sidecar"], sort_keys=True), tuple(header), json.dumps(rows)),
+    index = case.get("index")
+    ctx.case(("p", json.dumps(case["sidecar"], sort_keys=True), tuple(header), json.dumps(rows),
+              json.dumps(index["labels"]) if index else None),
              nontrivial=nrefs > 0 and len(impl["columns"]) >= 2,
-             sample={"sidecar": case["sidecar"], "header": header, "rows": rows[:2]} if nrefs == 2 else None)
+             sample={"sidecar": case["sidecar"], "header": header, "rows": rows[:2],
+                     "index": index["labels"][:2] if index else None} if nrefs == 2 else None)
     ctx.count(f"refs={nrefs}")
+    # a referenced column of this table none of whose transformed cells is missing ("dense"): the whole column could be
+    # spliced without the removal rules
+    how = "tsv-file" if case.get("via_file") else index["how"] if index else "default"
+    dense = [c for c in impl["refs"] if c in impl["columns"] and rows and
+             all(r[impl["columns"].index(c)] not in MISSING for r in impl["transformed"])]
+    hosts_n = len([c for c in impl["columns"] if c not in impl["refs"]])
+    ctx.count(f"row-labels:{how}")
+    if dense and hosts_n:
+        ctx.count(f"row-labels:{how}:with-a-referenced-column-without-missing-cell")
+        if len(dense) == len([c for c in impl["refs"] if c in impl["columns"]]):
+            ctx.count(f"row-labels:{how}:every-referenced-column-without-missing-cell")
+    if index and not case.get("via_file"):
+        ctx.extra["nondefault_label_pairs"] = ctx.extra.get("nondefault_label_pairs", 0) + 1
+        if dense and hosts_n:
+            ctx.extra["nondefault_label_pairs_dense_reference"] = ctx.extra.get("nondefault_label_pairs_dense_reference", 0) + 1
     for w in impl.get("loader_na", []):
         ctx.count("tsv-loader-reads-cell-as-n/a:" + w)      # pandas default NA strings, not this property
         if w not in PANDAS_NA:
@@ -619,11 +743,35 @@ def judge_pair(ctx, ok, case, spec, impl, model):
         ctx.violation("same-answer-every-time", case, impl["series"])
     if len(impl["series"][0]) != len(rows):
         ctx.violation("one-annotation-per-row", case, {"rows": len(rows), "got": len(impl["series"][0])})
-    b, a = impl["frame"]
-    if b["values"] != a["values"] or b["columns"] != a["columns"]:
-        ctx.violation("table-values-unchanged", case, {"before": b, "after": a})
-    elif b["dtypes"] != a["dtypes"]:
-        ctx.violation("table-dtypes-unchanged", case, {"before": b["dtypes"], "after": a["dtypes"]})
+    for which, (b, a) in (("table", impl["frame"]), ("callers-table", impl["caller_frame"])):
+        if b["values"] != a["values"] or b["columns"] != a["columns"]:
+            ctx.violation(which + "-values-unchanged", case, {"before": b, "after": a})
+        elif b["dtypes"] != a["dtypes"]:
+            ctx.violation(which + "-dtypes-unchanged", case, {"before": b["dtypes"], "after": a["dtypes"]})
+        elif b["index"] != a["index"] or b["index_type"] != a["index_type"]:
+            ctx.violation(which + "-row-labels-unchanged", case, {"before": [b["index"], b["index_type"]],
+                                                                  "after": [a["index"], a["index_type"]]})
+    # row order: everything returned carries the row labels of the table that was handed in, in its order (that is
+    # what the unchanged code returns for every kind of labels, duplicates included; a file is labelled 0..n-1)
+    want_labels = list(range(len(rows))) if case.get("via_file") or not index else list(index["labels"])
+    if impl["frame"][0]["index"] != want_labels:
+        ctx.violation("stored-table-keeps-the-row-labels", case, {"labels": impl["frame"][0]["index"], "expected": want_labels})
+    for what, got_labels in impl["labels"]:
+        if got_labels != want_labels:
+            ctx.violation("one-annotation-per-row-in-row-order-with-the-rows-labels", case,
+                          {"returned-by": what, "labels": got_labels, "expected": want_labels})
+            break
+    # dataframe_a, positionally: the transformer columns that are not referenced, in order; its rows joined by the
+    # statement's filter (here) are the annotations
+    fa = impl["frame_a"]
+    fa_cols = [c for c in impl["columns"] if c not in impl["refs"]]
+    if fa["columns"] != fa_cols:
+        ctx.violation("dataframe_a-columns-are-the-unreferenced-annotation-columns", case, {"got": fa["columns"], "expected": fa_cols})
+    elif impl["transformed"] is not None and len(fa["values"]) != len(rows):
+        ctx.violation("one-annotation-per-row", case, {"rows": len(rows), "dataframe_a": len(fa["values"])})
+    elif impl["transformed"] is not None and [own_join(r) for r in fa["values"]] != impl["series"][0]:
+        ctx.violation("series_a-is-dataframe_a-joined-row-by-row", case,
+                      {"dataframe_a": fa["values"], "series_a": impl["series"][0]})
     if not impl["dict_same"]:
         ctx.violation("sidecar-unchanged", case, "loaded_dict differs after assembly")
     want = expected_series(spec, header, rows)
@@ -682,7 +830,9 @@ HIST_OPS = ["series", "series", "frame", "refs", "refs", "skip", "skip", "valida
 
 def gen_history(rng):
     """one table, two sidecars over the same columns whose reference sets differ, a sequence of operations"""
-    specA, header, rows = gen_pair(rng)
+    labelled = rng.random() < 0.5           # half of the histories run on a frame whose row labels are not 0..n-1
+    dense = rng.random() < (0.6 if labelled else 0.25)
+    specA, header, rows = gen_pair(rng, dense=dense, min_rows=2 if labelled else 1, max_rows=5 if labelled else 4)
     names = list(specA)
     has_hed = "HED" in header
     specB = specA
@@ -696,17 +846,19 @@ def gen_history(rng):
         cur = "B" if cur == "A" else rng.choice(["A", "B"])
         ops.append("reset:" + cur)
         ops += [rng.choice(HIST_OPS) for _ in range(rng.randint(0, 2))]
-    return {"A": specA, "B": specB, "header": header, "rows": rows, "ops": ops}
+    return {"A": specA, "B": specB, "header": header, "rows": rows, "ops": ops,
+            "index": gen_index(rng, len(rows)) if labelled else None}
 
 
 def run_history(ctx, ok, h, schema):
     """ops on ONE TabularInput; after every op its rows must be those of a fresh object with the current sidecar"""
-    import pandas as pd
     from hed import TabularInput, Sidecar
-    case = {"history": {"A": make_case(h["A"], h["header"], h["rows"], False),
-                        "B": make_case(h["B"], h["header"], h["rows"], False), "ops": h["ops"]}}
+    index = h.get("index")
+    case = {"history": {"A": make_case(h["A"], h["header"], h["rows"], False, index),
+                        "B": make_case(h["B"], h["header"], h["rows"], False, index), "ops": h["ops"], "index": index}}
     mk = lambda sp: Sidecar(io.StringIO(json.dumps({c: s_["entry"] for c, s_ in sp.items()})))   # noqa: E731
-    df = pd.DataFrame(h["rows"], columns=h["header"], dtype=str)
+    df = build_frame(h["header"], h["rows"], index)
+    want_labels = labels_of(df.index)
     try:
         ti = TabularInput(df, sidecar=mk(h["A"]), name="gen")
         cur = "A"
@@ -721,12 +873,22 @@ def run_history(ctx, ok, h, schema):
             elif op == "skip":
                 ti.assemble(skip_curly_braces=True)
             elif op == "validate":
-                if schema is not None:
+                # validation is outside this property; on a frame with string row labels it raises on the unchanged tree
+                # (spreadsheet_validator: row label + 2), reported to the coordinator and not exercised here
+                if schema is not None and not any(isinstance(x, str) for x in want_labels):
                     ti.validate(schema)
+                elif schema is not None:
+                    ctx.count("history:validate-not-run-on-string-row-labels")
             else:
                 cur = op[-1]
                 ti.reset_column_mapper(mk(h[cur]))
-            got = [str(x) for x in ti.series_a]
+            now = ti.series_a
+            got = [str(x) for x in now]
+            if labels_of(now.index) != want_labels or labels_of(ti.dataframe_a.index) != want_labels:
+                ctx.violation("after-any-history-one-annotation-per-row-with-the-rows-labels", {**case, "step": k},
+                              {"op": op, "series_a": labels_of(now.index), "dataframe_a": labels_of(ti.dataframe_a.index),
+                               "expected": want_labels})
+                return
             fresh = TabularInput(df, sidecar=mk(h[cur]), name="gen")
             want = [str(x) for x in fresh.series_a]
             table = [[str(x) for x in r] for r in fresh.dataframe.values.tolist()]
@@ -741,14 +903,25 @@ def run_history(ctx, ok, h, schema):
     differ = spec_refs(h["A"]) != spec_refs(h["B"])
     ctx.case(("hist", json.dumps(case, sort_keys=True, default=str)), nontrivial=differ and any(o.startswith("reset") for o in h["ops"]))
     ctx.count("history:reference-sets-differ" if differ else "history:same-reference-set")
+    ctx.count("history:row-labels:" + (index["how"] if index else "default"))
+    if labels_of(df.index) != want_labels:
+        ctx.violation("callers-table-row-labels-unchanged", case, {"before": want_labels, "after": labels_of(df.index)})
     for (k, op, cur, got, want), m in zip(obs, ans):
         if got != want:
             ctx.violation("after-any-history-rows-are-those-of-the-current-sidecar", {**case, "step": k},
                           {"op": op, "sidecar": cur, "got": got, "fresh": want})
             return
         if m["series"] != want:
-            ctx.disagree("Assemble.series (current sidecar) = series_a after a history", {**case, "step": k},
-                         m["series"], want)
+            # where the model gives the annotation the generating trees prescribe and the object does not, the input is a
+            # concrete failing one (position by position, whatever the row labels)
+            tree = expected_series(h[cur], h["header"], h["rows"])
+            bad = [i for i, (x, y, z) in enumerate(zip(m["series"], tree, want)) if norm(x) == norm(y) != norm(z)]
+            if len(want) != len(tree) or bad:
+                ctx.violation("after-any-history-row-is-the-prescribed-annotation", {**case, "step": k, "row": (bad or [None])[0]},
+                              {"op": op, "sidecar": cur, "got": want, "expected": tree})
+            else:
+                ctx.disagree("Assemble.series (current sidecar) = series_a after a history", {**case, "step": k},
+                             m["series"], want)
             return
 
 
@@ -806,10 +979,21 @@ def part_c(ctx):
     ctx.extra["handler_cells"] = len(cells)
 
 
+def gen_input(rng, i):
+    """(spec, header, rows, via_file, index): every 7th pair goes through a .tsv file; of the DataFrame inputs ~45 % carry
+    row labels other than 0..n-1 (2-6 rows), and 60 % of those (25 % of the others) are dense, i.e. no referenced
+    column has a missing cell"""
+    via_file = i % 7 == 3
+    labelled = not via_file and rng.random() < 0.45
+    dense = rng.random() < (0.6 if labelled else 0.25)
+    spec, header, rows = gen_pair(rng, dense=dense, min_rows=2 if labelled else 1, max_rows=6 if labelled else 4)
+    return spec, header, rows, via_file, gen_index(rng, len(rows)) if labelled else None
+
+
 def _impl_worker(args):
-    spec, header, rows, via_file, tmpdir = args
+    spec, header, rows, via_file, index, tmpdir = args
     try:
-        return impl_pair(spec, header, rows, via_file, tmpdir)
+        return impl_pair(spec, header, rows, via_file, tmpdir, index)
     except Exception as e:     # reported as a violation by the parent
         return {"raised": f"{type(e).__name__}: {e}"}
 
@@ -823,14 +1007,13 @@ def part_b_batched(ctx, ok):
     pool = None if ctx.quick() else multiprocessing.get_context("fork").Pool(4)
     try:
         n = 2000 if ctx.quick() else 42000
-        pairs = FIXED_PAIRS() + [gen_pair(ctx.rng) for _ in range(n)]
+        pairs = FIXED_PAIRS() + [gen_input(ctx.rng, i) for i in range(n)]
         for lo in range(0, len(pairs), 1000):
-            chunk = [(spec, header, rows, i % 7 == 3, tmpdir) for i, (spec, header, rows)
-                     in enumerate(pairs[lo:lo + 1000], lo)]
+            chunk = [p + (tmpdir,) for p in pairs[lo:lo + 1000]]
             impls = pool.map(_impl_worker, chunk, chunksize=25) if pool else [_impl_worker(a) for a in chunk]
             todo = []
-            for (spec, header, rows, via_file, _), impl in zip(chunk, impls):
-                case = make_case(spec, header, rows, via_file)
+            for (spec, header, rows, via_file, index, _), impl in zip(chunk, impls):
+                case = make_case(spec, header, rows, via_file, index)
                 if "raised" in impl:
                     ctx.violation("assembly-raised", case, impl["raised"])
                 else:
@@ -846,9 +1029,9 @@ def part_b_batched(ctx, ok):
         shutil.rmtree(tmpdir, ignore_errors=True)
 
 
-def make_case(spec, header, rows, via_file):
+def make_case(spec, header, rows, via_file, index=None):
     return {"sidecar": {c: s["entry"] for c, s in spec.items()}, "header": header, "rows": rows,
-            "via_file": via_file,
+            "via_file": via_file, "index": None if via_file else index,
             "spec": {c: {"kind": s["kind"], "trees": [[k, t] for k, t in s["trees"].items()]} for c, s in spec.items()}}
 
 
@@ -867,7 +1050,7 @@ def model_request(spec, impl):
 def FIXED_PAIRS():
     t = lambda x: ("tag", x)   # noqa: E731
     r = lambda x: ("ref", x)   # noqa: E731
-    return [
+    plain = [
         ({"col": {"kind": "categorical", "entry": {"HED": {"k1": "Red", "k2": "Blue"}},
                   "trees": {"k1": [t("Red")], "k2": [t("Blue")]}},
           "v": {"kind": "value", "entry": {"HED": "{col}, Square, Label/#"},
@@ -886,6 +1069,40 @@ def FIXED_PAIRS():
                 "trees": {None: [r("HED"), t("Age/# years")]}}},
          ["HED", "b"], [["n/a", "3"], ["Pink", "3"], ["", ""]]),
     ]
+    # the events table of a recording and the frames a user cuts out of it: only the trials (labels 1, 2, 4, 5, 6; every
+    # response filled in), the same renumbered, the second half (labels 3..6, one response missing), as a file, and the
+    # trials under other labels
+    seed_spec = {
+        "trial_type": {"kind": "categorical", "entry": {"HED": {"go": "(Red, {resp})", "stop": "Blue, {resp}"}},
+                       "trees": {"go": [("grp", [t("Red"), r("resp")])], "stop": [t("Blue"), r("resp")]}},
+        "resp": {"kind": "categorical", "entry": {"HED": {"left": "Left-side-of", "right": "Right-side-of"}},
+                 "trees": {"left": [t("Left-side-of")], "right": [t("Right-side-of")]}},
+        "dur": {"kind": "value", "entry": {"HED": "Duration/# s"}, "trees": {None: [t("Duration/# s")]}},
+        "note": {"kind": "ignored", "entry": {"Description": "free text, carries no HED"}, "trees": {}}}
+    hdr = ["onset", "trial_type", "resp", "dur", "note"]
+    rec = [["0.5", "rest", "n/a", "n/a", "a"], ["1.0", "go", "left", "1", "b"], ["2.0", "stop", "right", "2", "c"],
+           ["3.5", "rest", "n/a", "n/a", "d"], ["4.0", "go", "right", "3", "e"], ["5.5", "stop", "left", "n/a", "f"],
+           ["6.0", "go", "left", "5", "g"]]
+    trials = [x for x in rec if x[1] != "rest"]
+    cut = [(seed_spec, hdr, rec, False, None),
+           (seed_spec, hdr, trials, False, {"how": "filtered", "labels": [1, 2, 4, 5, 6], "filler": rec[0]}),
+           (seed_spec, hdr, trials, False, None),
+           (seed_spec, hdr, rec[3:], False, {"how": "sliced", "labels": [3, 4, 5, 6], "filler": rec[0]}),
+           (seed_spec, hdr, trials[1:], False, {"how": "sliced", "labels": [1, 2, 3, 4], "filler": rec[1]}),
+           (seed_spec, hdr, trials, True, None),
+           (seed_spec, hdr, trials[:4], False, {"how": "stepped", "labels": [1, 3, 5, 7], "filler": rec[0]})]
+    for how, labels in (("permuted", [3, 0, 4, 1, 2]), ("gapped", [10, 20, 30, 40, 50]), ("strings", list("abcde")),
+                        ("strings", ["4", "3", "2", "1", "0"]), ("duplicated", [0, 1, 1, 2, 0]),
+                        ("duplicated", ["a", "a", "b", "b", "a"]), ("negative", [-1, -2, -3, -4, -5]),
+                        ("float", [0.5, 1.5, 2.5, 3.5, 4.5])):
+        cut.append((seed_spec, hdr, trials, False, {"how": how, "labels": labels}))
+    # the earlier fixed pairs under the default labels and under cut-out / relabelled ones
+    out = [p + (False, None) for p in plain]
+    for k, (spec, header, rows) in enumerate(plain):
+        n = len(rows)
+        out.append((spec, header, rows, False, {"how": "filtered", "labels": [2 * i + 1 for i in range(n)]}))
+        out.append((spec, header, rows, False, {"how": "permuted", "labels": [(i + 1) % n for i in range(n)]}))
+    return out + cut
 
 
 def run(ctx):
@@ -894,7 +1111,9 @@ def run(ctx):
                          "{n/a, '', tag, group}; non-trivial = well-formed input with whole-tag references and a removal; "
                          "(b) random sidecars (1-4 columns: categorical/value/ignored/malformed, optional HED column, 0-2 "
                          "references incl. {HED} placed alone/first/middle/last/in parentheses/sole group member/nested) x "
-                         "tables over keys, n/a, empty, unknown; shuffled file order; DataFrame and .tsv input; "
+                         "tables over keys, n/a, empty, unknown; shuffled file order; DataFrame and .tsv input; ~38 % of the pairs are "
+                         "DataFrames whose row labels are not 0..n-1 (filtered, sliced, stepped, permuted, gapped, negative, "
+                         "float, string, duplicated), 60 % of those with every cell of the referenced columns filled in; "
                          "non-trivial = at least one reference and two transformer columns")
     t = {"obligations": round(ctx.elapsed(), 1)}
     part_a(ctx, ok)
@@ -912,7 +1131,11 @@ def run(ctx):
                      "(_category_handler has no missing-cell test); (3) a blank-only HED cell is kept as an item")
     ctx.notes.append("referenced columns carry no references themselves (the iteration order of the reference set is "
                      "taken from the implementation and the model is also run with the reversed order)")
-    ctx.notes.append("ASCII names and blanks; DataFrame index is the default RangeIndex")
+    ctx.notes.append("ASCII names and blanks.  Row labels of DataFrame inputs: 0..n-1, rows cut out of a longer frame "
+                     "(boolean mask, iloc[k:], iloc[k::2]), permuted, gapped, negative, float, string and duplicated labels; "
+                     "the annotations are judged by position and every returned Series / DataFrame must carry exactly the "
+                     "labels of the table handed in, in its order (that is what the unchanged code returns, duplicates "
+                     "included); MultiIndex and datetime labels are not generated")
 
 
 def replay(ctx, rec):
@@ -929,7 +1152,7 @@ def replay(ctx, rec):
         except Exception:
             schema = None
         run_history(ctx, ok, {"A": spec_of_case(hc["A"]), "B": spec_of_case(hc["B"]), "header": hc["A"]["header"],
-                              "rows": hc["A"]["rows"], "ops": hc["ops"]}, schema)
+                              "rows": hc["A"]["rows"], "ops": hc["ops"], "index": hc.get("index")}, schema)
     elif "handler_cell" in case:
         part_c(ctx)
     elif "text" in case and "a" in case:
@@ -942,9 +1165,13 @@ def replay(ctx, rec):
         tmpdir = tempfile.mkdtemp(prefix="hedverif_c06_")
         try:
             spec = spec_of_case(case)
-            impl = impl_pair(spec, case["header"], case["rows"], case.get("via_file", False), tmpdir)
-            m = ctx.model.batch([model_request(spec, impl)])[0]
-            judge_pair(ctx, ok, make_case(spec, case["header"], case["rows"], case.get("via_file", False)), spec, impl, m)
+            full = make_case(spec, case["header"], case["rows"], case.get("via_file", False), case.get("index"))
+            impl = _impl_worker((spec, case["header"], case["rows"], case.get("via_file", False), case.get("index"), tmpdir))
+            if "raised" in impl:
+                ctx.violation("assembly-raised", full, impl["raised"])
+            else:
+                m = ctx.model.batch([model_request(spec, impl)])[0]
+                judge_pair(ctx, ok, full, spec, impl, m)
         finally:
             shutil.rmtree(tmpdir, ignore_errors=True)
     print("replayed", json.dumps(case)[:300])
